@@ -523,6 +523,8 @@ def run_cfg(arg):
     # buffers").  The cycle is harmless while uncollected: no cyclic GC in
     # these short-lived enumeration processes.
     _no_final_gc()
+    import gc
+    gc.disable()                  # collect between executions only (l3.py)
     cfg, sigs, lines = arg
     base = Run(cfg, None, lines).run()
     v = spec_check(cfg, base, None)
@@ -537,8 +539,7 @@ def run_cfg(arg):
         for k in range(base['points'] + 1):
             r = Run(cfg, (k, int(sig)), lines).run()
             stats['runs'] += 1
-            if stats['runs'] % 250 == 0:
-                import gc
+            if stats['runs'] % 25 == 0:
                 gc.collect()
             v = chk(cfg, r, (k, int(sig)))
             if not v and (int(sig) != int(SOFT) or (
